@@ -116,29 +116,60 @@ theorem invalid_variant_only_invalid (p : Params α) (h : PHours α) (env : Env 
   · simp only [adjNearGood, hs, hp, Policy.isGoodDayAll]
     cases hf : h.fajr <;> cases hi : h.isha <;> simp [hf, hi]
 
-/-- so under the default policy a found day makes both twilights present and flagged -/
-theorem found_day_fills_both (p : Params α) (h : PHours α) (env : Env α) (a : Hours α)
-    (hp : p.policy = .NearestGoodDayFajrIshaInvalid) (hs : searchGood env.hoursAt env.bound = some a)
-    (hf : h.fajr = none) :
-    ∃ v, (adjNearGood p h env).fajr = some ⟨v, true⟩ ∧ a.fajr = some v := by
-  obtain ⟨f1, _, _⟩ := searchGood_some _ _ _ hs
+/-- so under the default (only-if-invalid) policy a found day fills EACH MISSING twilight with the
+    found day's value, flagged extreme; a twilight that exists conventionally is kept as it is
+    (`invalid_variant_only_invalid`, and Thm C08).  This is the reading of "both are still
+    reported" the checks commit to (DESIGN 14.3.17): when both are missing both are replaced, when
+    one is missing that one is. -/
+theorem found_day_fills_missing (p : Params α) (h : PHours α) (env : Env α) (a : Hours α)
+    (hp : p.policy = .NearestGoodDayFajrIshaInvalid) (hs : searchGood env.hoursAt env.bound = some a) :
+    (h.fajr = none → ∃ v, (adjNearGood p h env).fajr = some ⟨v, true⟩ ∧ a.fajr = some v) ∧
+    (h.isha = none → ∃ v, (adjNearGood p h env).isha = some ⟨v, true⟩ ∧ a.isha = some v) ∧
+    (∀ x, h.fajr = some x → (adjNearGood p h env).fajr = some x) ∧
+    (∀ x, h.isha = some x → (adjNearGood p h env).isha = some x) := by
+  obtain ⟨f1, f2, _⟩ := searchGood_some _ _ _ hs
   obtain ⟨v, hv⟩ := Option.isSome_iff_exists.mp f1
-  refine ⟨v, ?_, hv⟩
-  rw [(invalid_variant_only_invalid p h env a hp hs).1, hf]
-  simp [hv, PH.ext]
+  obtain ⟨u, hu⟩ := Option.isSome_iff_exists.mp f2
+  have hk := invalid_variant_only_invalid p h env a hp hs
+  refine ⟨?_, ?_, ?_, ?_⟩
+  · intro hf; refine ⟨v, ?_, hv⟩; rw [hk.1, hf]; simp [hv, PH.ext]
+  · intro hi; refine ⟨u, ?_, hu⟩; rw [hk.2.1, hi]; simp [hu, PH.ext]
+  · intro x hx; rw [hk.1, hx]; simp
+  · intro x hx; rw [hk.2.1, hx]; simp
 
 /-- the dates the search visits are the civil dates date-i / date+i (JulianDay::sub/add step the
     NaiveDate by whole days; that its f64 value is the Julian Day of that date is Thm/C13 `jd_sub_add`) -/
 theorem stepping_is_civil (j : JD α) (i : Nat) : (j.sub i).rd = j.rd - i ∧ (j.add i).rd = j.rd + i :=
   ⟨rfl, rfl⟩
 
-/-- …and over ℝ the Julian Day value it carries is the Julian Day of that civil date (Thm C13), so
-    `hoursAt off` in the real environment is the conventional computation of the date `off` days
-    away — for every date from 1583 on -/
+/-- …and over ℝ the Julian Day value it carries is the Julian Day of that civil date (Thm C13) - for
+    every date from 1583 on; `hoursAt_is_that_date` below draws the conclusion for the environment -/
 theorem stepping_lands_on_that_date (rd : Int) (gmt : ℝ) (i : ℕ) (h : C13.rd1583 ≤ rd - i) :
     ((JD.new rd gmt).sub i).value = (JD.new (rd - i) gmt).value ∧
     ((JD.new rd gmt).add i).value = (JD.new (rd + i) gmt).value :=
   ⟨(C13.jd_sub_is_jd_of_date rd gmt i h).1, (C13.jd_sub_is_jd_of_date rd gmt i h).2.2.1⟩
+
+/-- **the day the search looks at IS the conventional computation of the date that many days away**:
+    in the environment the real code builds (`envOf`), `hoursAt (∓i)` equals `getHours` on the
+    ephemeris of the civil date rd ∓ i at the same place - over ℝ, every date from 1583 on -/
+theorem hoursAt_is_that_date (p : Params ℝ) (c : Coords ℝ) (w : Weather ℝ) (rd : Int) (gmt : ℝ) (i : ℕ)
+    (h : C13.rd1583 ≤ rd - i) :
+    (envOf p (topFromJd (JD.new rd gmt) c) w).hoursAt (-(i : Int)) = getHours p (topFromJd (JD.new (rd - i) gmt) c) w ∧
+    (envOf p (topFromJd (JD.new rd gmt) c) w).hoursAt (i : Int) = getHours p (topFromJd (JD.new (rd + i) gmt) c) w := by
+  obtain ⟨a, _, b, _⟩ := C13.jd_sub_is_jd_of_date rd gmt i h
+  have e1 : (JD.new rd gmt).sub i = JD.new (rd - i) gmt := by
+    simp only [JD.new, JD.sub] at a ⊢; rw [a]
+  have e2 : (JD.new rd gmt).add i = JD.new (rd + i) gmt := by
+    simp only [JD.new, JD.add] at b ⊢; rw [b]
+  constructor
+  · simp only [envOf, topFromJd, topFromAd, astroDayNew]
+    rcases Nat.eq_zero_or_pos i with hi | hi
+    · subst hi; simp at e1 e2 ⊢; simp [e2]
+    · have : (-(i:Int)) < 0 := by omega
+      simp only [this, if_true, Int.natAbs_neg, Int.natAbs_natCast, e1]
+  · simp only [envOf, topFromJd, topFromAd, astroDayNew]
+    have : ¬ ((i:Int)) < 0 := by omega
+    simp only [this, if_false, Int.natAbs_natCast, e2]
 
 -- non-vacuity: a search space with a tie at distance 2 (both date-2 and date+2 good) returns
 -- the earlier date (the one whose Shurooq slot is empty in this toy space)
